@@ -229,7 +229,7 @@ def check(prop, tier, seed, jobs):
         for o in r['obligations']:
             # obligations of the property + every auxiliary obligation (invariant init/preservation/frame, callee
             # preconditions, definedness) of the harnesses its clauses are proved in: their proofs depend on those
-            if prop not in o['props'] and o['kind'] != 'A':
+            if prop not in o['props'] and (o['kind'] != 'A' or (o.get('meta') or {}).get('_explicit')):
                 continue
             nobs += 1
             solver_s += o['seconds']
